@@ -17,7 +17,7 @@ const VARS: &[&str] = &["x", "y", "z"];
 const WILDS: &[&str] = &["r", "x"];
 const METHODS: &[&str] = &["GET", "PUT", "POST", "DELETE"];
 const CHAIN: &[&str] = &["1.0.0", "2.0.0", "3.0.0"];
-const PROBES: &[&str] = &["0.5.0", "1.0.0", "1.5.0", "2.0.0", "2.5.0", "3.0.0", "3.5.0", "2.0.0-rc.1"];
+const PROBES: &[&str] = &["0.5.0", "1.0.0", "1.5.0", "2.0.0", "2.5.0", "3.0.0", "3.5.0", "2.0.0-rc.1", "2.0.0+a", "2.0.0+a.1", "2.0.0+b"];
 
 #[derive(Clone)]
 enum Choice {
@@ -87,10 +87,11 @@ fn gen_range(rng: &mut Rng, versioned_pct: u64) -> Rg {
     if !rng.chance(versioned_pct, 100) {
         return Rg::All;
     }
-    let pool: Vec<&str> = if rng.chance(1, 10) {
-        vec!["1.0.0", "2.0.0-rc.1", "2.0.0", "3.0.0"]
-    } else {
-        CHAIN.to_vec()
+    let pool: Vec<&str> = match rng.below(10) {
+        0 => vec!["1.0.0", "2.0.0-rc.1", "2.0.0", "3.0.0"],
+        // bounds that differ in build metadata only (the `semver` crate orders them)
+        1 => vec!["1.0.0", "2.0.0+a", "2.0.0+b", "3.0.0"],
+        _ => CHAIN.to_vec(),
     };
     match rng.below(3) {
         0 => Rg::From(rng.pick(&pool).to_string()),
